@@ -378,6 +378,20 @@ impl<'r, 'b> PeekRr<'r, 'b> {
         ))
     }
 
+    /// Returns the resource record's TTL field exactly as it appears
+    /// on the wire, without the [`Ttl`] interpretation of [RFC 2181 §
+    /// 8]. This is needed for pseudo-RRs like OPT that reuse the field
+    /// for other purposes.
+    ///
+    /// [RFC 2181 § 8]: https://datatracker.ietf.org/doc/html/rfc2181#section-8
+    pub fn raw_ttl(&self) -> u32 {
+        u32::from_be_bytes(
+            self.reader.octets[self.owner_end + 4..self.owner_end + 8]
+                .try_into()
+                .unwrap(),
+        )
+    }
+
     /// Returns the resource record's RDLENGTH field.
     pub fn rdlength(&self) -> u16 {
         u16::from_be_bytes(
